@@ -1,6 +1,7 @@
 import FastraceModel.Lemmas.Assoc
 import FastraceModel.Lemmas.Collector
 import FastraceModel.Props.C12
+import FastraceModel.Lemmas.ProvExec
 
 /-!
 # C11 — extracted span contexts identify the right span
@@ -60,5 +61,17 @@ theorem C11_record_of_item (conv : Nat → Nat) (raw : RawSpan) (trace parent : 
 /-- the same through a traceparent round trip (C12) -/
 theorem C11_via_traceparent (c : SpanContext) (h : c.WF) :
     decodeTraceparent (encodeTraceparent c) = some c := C12_decode_encode c h
+
+/-- **whole programs**: whatever the program, a context extracted anywhere (from a span handle or
+    from the local parent) names a trace that some `root` operation of the program created, with
+    that root's sampling decision -/
+theorem C11_context_belongs_to_a_root (p : Program) :
+    ∀ o ∈ (run Sys.init p).2, ∀ c, o = .ctx (some c) →
+      c.traceId ∈ sampledRootTraces p ∨ c.traceId ∈ unsampledRootTraces p := by
+  intro o ho c hc
+  have h := (run_prov_init p o ho).2 c hc
+  cases hs : c.sampled with
+  | true => exact .inl (h.1 hs)
+  | false => exact .inr (h.2 hs)
 
 end Fastrace
